@@ -123,11 +123,35 @@ class UnimodalPdf(DensityEstimator):
         z_tail = (min(v[0], self.lwr_limit) - x0) / s0
         intervals[0] = s0 * quad(lambda z: self(x0 + s0 * z), -inf, z_tail)[0]
         if v[0] > self.lwr_limit:
-            intervals[0] += quad(self.__call__, self.lwr_limit, v[0])[0]
+            intervals[0] += self.__integrate(self.lwr_limit, v[0])
         for i in range(1, x.size):
-            intervals[i] = quad(self.__call__, v[i - 1], v[i])[0]
+            intervals[i] = self.__integrate(v[i - 1], v[i])
         integral = intervals.cumsum()[inverse_sort]
         return integral if x.size > 1 else integral[0]
+
+    def __integrate(self, a: float, b: float) -> float:
+        # adaptive quadrature cannot find the region holding the probability inside
+        # an interval which is far wider than it, so split the interval at its edges
+        knots = [p for p in (self.lwr_limit, self.mode, self.upr_limit) if a < p < b]
+        knots = [a, *knots, b]
+        return sum(self.__segment(k0, k1) for k0, k1 in zip(knots[:-1], knots[1:]))
+
+    def __segment(self, a: float, b: float) -> float:
+        if a >= self.upr_limit:
+            return self.__tail(a, upper=True) - self.__tail(b, upper=True)
+        if b <= self.lwr_limit:
+            return self.__tail(b, upper=False) - self.__tail(a, upper=False)
+        return quad(self.__call__, a, b)[0]
+
+    def __tail(self, t: float, upper: bool) -> float:
+        # the probability beyond 't', integrated in standardised coordinates
+        # where the infinite-range quadrature is well-scaled
+        if abs(t) == inf:
+            return 0.0
+        x0, s0 = self.MAP[0], self.MAP[1]
+        z = (t - x0) / s0
+        limits = (z, inf) if upper else (-inf, z)
+        return s0 * quad(lambda u: self(x0 + s0 * u), *limits)[0]
 
     def evaluate_model(self, x: ndarray, theta: ndarray) -> ndarray:
         return self.pdf_model(x, theta) / self.norm(theta)
